@@ -166,6 +166,8 @@ pub const S12I: [i64; 12] = [0, 1, -1, 63, 64, -64, -65, 1 << 31, -(1 << 31) - 1
 
 pub const SHAPED_LENS_QUICK: &[usize] = &[0, 1, 2, 3, 4, 5, 6, 7, 8, 9];
 pub const SHAPED_LENS_MORE: &[usize] = &[15, 16, 17, 31, 32, 33, 64];
+/// (coverage audit) lengths whose LEB128 element count needs 2 and 3 bytes (every sequence format starts with the count)
+pub const SHAPED_LENS_COUNT: &[usize] = &[127, 128, 129, 300, 16383, 16384];
 
 /// shaped u64 sequences: ascending / descending / huge-first-difference / alternating / all-MAX / grid walk
 pub fn shaped_u64(shape: usize, n: usize) -> Vec<u64> {
@@ -180,11 +182,15 @@ pub fn shaped_u64(shape: usize, n: usize) -> Vec<u64> {
             5 => if i % 2 == 0 { 0 } else { u64::MAX },         // alternating extremes
             6 => u64::MAX,                                      // all ten-byte varints
             7 => g[(i as usize * 5) % g.len()],                 // grid walk
-            _ => (1u64 << 32) - 2 + i,                          // straddles 2^32
+            8 => (1u64 << 32) - 2 + i,                          // straddles 2^32
+            // (coverage audit, appended)
+            9 => [0xABu64, 0xABCD, 0xAB_CDEF, 0xABCD_EF01][(i % 4) as usize] + (i / 4) % 2, // 1,2,3,4-byte values in every group of four, all < 2^32
+            10 => (1u64 << 32) - 1 - (i % 1000),                // unsorted, max exactly 2^32-1 (the largest value group varint can hold)
+            _ => (1u64 << 32) - (i % 1000),                     // unsorted, max exactly 2^32
         })
         .collect()
 }
-pub const N_SHAPES_U: usize = 9;
+pub const N_SHAPES_U: usize = 12;
 
 pub fn shaped_i64(shape: usize, n: usize) -> Vec<i64> {
     let g = grid_i64();
@@ -198,11 +204,14 @@ pub fn shaped_i64(shape: usize, n: usize) -> Vec<i64> {
             5 => if i % 2 == 0 { i64::MIN } else { i64::MAX },  // alternating extremes
             6 => i64::MIN,                                      // all MIN
             7 => g[(i as usize * 7) % g.len()],                 // grid walk
-            _ => (1i64 << 31) - 2 + i,                          // straddles 2^31
+            8 => (1i64 << 31) - 2 + i,                          // straddles 2^31
+            // (coverage audit, appended) small magnitudes of alternating sign around the 1/2-byte zigzag boundary (+-64)
+            9 => if i % 2 == 0 { 60 + (i % 9) } else { -(60 + (i % 9)) },
+            _ => -5 + (i % 300),                                // sorted runs through 0 (|v| < 256 and >= 256)
         })
         .collect()
 }
-pub const N_SHAPES_I: usize = 9;
+pub const N_SHAPES_I: usize = 11;
 
 /// all sequences of length ≤ 3 over the 12-value subset, then the shaped ones
 pub fn seqs_u64(tier: Tier, f: &mut dyn FnMut(Vec<u64>) -> bool) -> bool {
@@ -210,9 +219,12 @@ pub fn seqs_u64(tier: Tier, f: &mut dyn FnMut(Vec<u64>) -> bool) -> bool {
         return false;
     }
     for shape in 0..N_SHAPES_U {
-        for &n in SHAPED_LENS_QUICK.iter().chain(SHAPED_LENS_MORE.iter()) {
+        for &n in SHAPED_LENS_QUICK.iter().chain(SHAPED_LENS_MORE.iter()).chain(SHAPED_LENS_COUNT.iter()) {
             if n < 4 && shape == 6 {
                 continue; // already in the small scope
+            }
+            if n > 1000 && shape != 0 && shape != 9 {
+                continue; // the 3-byte element count: two shapes of small values are enough
             }
             if !f(shaped_u64(shape, n)) {
                 return false;
@@ -228,7 +240,10 @@ pub fn seqs_i64(tier: Tier, f: &mut dyn FnMut(Vec<i64>) -> bool) -> bool {
         return false;
     }
     for shape in 0..N_SHAPES_I {
-        for &n in SHAPED_LENS_QUICK.iter().chain(SHAPED_LENS_MORE.iter()) {
+        for &n in SHAPED_LENS_QUICK.iter().chain(SHAPED_LENS_MORE.iter()).chain(SHAPED_LENS_COUNT.iter()) {
+            if n > 1000 && shape != 0 && shape != 9 {
+                continue;
+            }
             if !f(shaped_i64(shape, n)) {
                 return false;
             }
